@@ -7,6 +7,7 @@ from spverif.core.util import attempt, exc_sig
 from spverif.ref import cfdp as R
 from . import _cfdp as C
 
+SCRIBBLE = True
 ID = "C12"
 LEVEL = "exploration"
 SHARDS = {"quick": 1, "thorough": 8}
@@ -124,6 +125,8 @@ KINDS = {"factory": k_factory, "empty_holder": lambda ctx: k_empty_holder(ctx), 
 
 
 def run(ctx):
+    from spverif.san import scribble
+    scribble.install()
     r = ctx.rng
     i = 0
     reps = 2 if ctx.quick else 10
@@ -146,6 +149,7 @@ def run(ctx):
 
 
 def conclude(ctx):
+    ctx.require(ctx.extra.get("hostile_caller_scribbled_pack_results", 0) > 0, "hostile-caller sanitizer scribbled no pack() result")
     ctx.require(len(ctx.tables.get("kind_x_config", {})) >= 8 * 128, "kind x configuration table incomplete")
     ctx.require(len(ctx.tables.get("accessor_matrix", {})) == 64, "accessor matrix incomplete")
     ctx.require(len(ctx.tables.get("accessor_matrix_reused_holder", {})) == 64, "accessor matrix on a reused holder incomplete")
